@@ -1,1 +1,187 @@
-def main : IO Unit := IO.println "stub"
+/-
+  drv_hook — driver of the class-creation model (property C18).
+
+    drv_hook table      prints one line per class of the generated class table:
+                          <id> <name> mro=<ids> | e:<hk>,<attr>,<slot>,<req>,<ran>,<mdd> | v:… | k:… | x:…
+    drv_hook            reads one synthetic subclass chain per stdin line and prints one line per chain:
+                          <class>|<class>|…   with <class> = e:<hk>,<attr>,<slot>,<req>,<ran>,<ok>,<int>;v:…;k:…;x:…
+
+  Chain line:  BASE|BODY|BODY|…
+    BASE  = T:<table id>            the chain starts below that table class
+          | M:<id>,<id>,…           below several pure roots (like Effect)
+    BODY  = <tok>,<tok>,<tok>,<tok>,<ssss>     tokens for evaluate,validate,keys,explain; s = 0/1 `def __labrea_m__`
+    tok   = -            absent
+          | d            def
+          | p<j>         assignment of the plain outside function j
+          | f<j>         assignment of a function carrying a hand-set marker
+          | a<i>.<m>     assignment of getattr(chain class i, m)      (m one of e v k x)
+          | b.<m>        assignment of getattr(base class, m)          (T: bases only)
+          | t<id>.<m>    assignment of getattr(table class id, m)
+  Function names: u<cls>.<m> def m in cls; s<cls>.<m> def __labrea_m__ in cls; x<j>; f<j>; w.<m> wrapper; - none.
+  Chain class i has id 1000+i.
+-/
+import LabreaModel.Hook
+import LabreaModel.Generated.ClassTable
+
+open Labrea.Hook
+
+def ml : Meth → String
+  | .evaluate => "e" | .validate => "v" | .keys => "k" | .explain => "x"
+
+def parseM (s : String) : Option Meth :=
+  match s with
+  | "e" => some .evaluate | "v" => some .validate | "k" => some .keys | "x" => some .explain
+  | _ => none
+
+def fnS : Option Fn → String
+  | none => "-"
+  | some (.user c m) => s!"u{c}.{ml m}"
+  | some (.slotfn c m) => s!"s{c}.{ml m}"
+  | some (.ext j) => s!"x{j}"
+  | some (.wrapper m) => s!"w.{ml m}"
+  | some (.fake j) => s!"f{j}"
+
+def b01 (b : Bool) : String := if b then "1" else "0"
+
+def reqS (l : List Meth) : String := if l.isEmpty then "-" else String.intercalate "+" (l.map ml)
+
+def methOrder : List Meth := [.evaluate, .validate, .keys, .explain]
+
+/-- observation of method `m` on the class with MRO `w` whose ancestors are `anc` -/
+def obsM (anc w : MRO) (m : Meth) : String :=
+  let o := call w m
+  s!"{b01 (hooked anc m)},{fnS (lookupAttr m w)},{fnS (lookupSlot m w)},{reqS o.requests},{fnS o.ran}"
+
+def tableLine (t : List Entry) (r : Row) : String :=
+  let cols := methOrder.map fun m =>
+    let mdd := match mostDerivedDef t m (t.length + 1) r.id with
+      | some d => toString d
+      | none => "-"
+    s!"{ml m}:{obsM r.anc r.mro m},{mdd}"
+  let mro := String.intercalate "," (r.mro.map fun c => toString c.id)
+  s!"{r.id} {r.name} mro={mro} | " ++ String.intercalate " | " cols
+
+def resolveFrom (src : MRO) (m' : Meth) : Option Def :=
+  match lookupAttr m' src with
+  | some (.wrapper mm) => some (.alias (lookupSlot mm src) mm)
+  | some f => some (.fn f)
+  | none => none
+
+def parseTok (rows : List Row) (base : Option MRO) (mros : Array MRO) (id : Nat) (m : Meth)
+    (tok : String) : Except String Def :=
+  if tok == "-" then .ok .absent
+  else if tok == "d" then .ok (.fn (.user id m))
+  else
+    let hd := tok.take 1
+    let rest := (tok.drop 1).toString
+    if hd == "p" then
+      match rest.toNat? with | some j => .ok (.fn (.ext j)) | none => .error s!"bad token {tok}"
+    else if hd == "f" then
+      match rest.toNat? with | some j => .ok (.fn (.fake j)) | none => .error s!"bad token {tok}"
+    else
+      match rest.splitOn "." with
+      | [k, ms] =>
+        match parseM ms with
+        | none => .error s!"bad method in {tok}"
+        | some m' =>
+          let src : Except String MRO :=
+            if hd == "a" then
+              match k.toNat? with
+              | some i => if h : i < mros.size then .ok mros[i] else .error s!"bad index in {tok}"
+              | none => .error s!"bad index in {tok}"
+            else if hd == "b" then
+              match base with | some w => .ok w | none => .error "b. needs a T: base"
+            else if hd == "t" then
+              match k.toNat? with
+              | some i => match findRow rows i with | some r => .ok r.mro | none => .error s!"no table class {i}"
+              | none => .error s!"bad id in {tok}"
+            else .error s!"bad token {tok}"
+          match src with
+          | .error e => .error e
+          | .ok w =>
+            match resolveFrom w m' with
+            | some d => .ok d
+            | none => .error s!"noattr {tok}"
+      | _ => .error s!"bad token {tok}"
+
+def parseBody (rows : List Row) (base : Option MRO) (mros : Array MRO) (id : Nat) (s : String) :
+    Except String Body :=
+  match s.splitOn "," with
+  | [te, tv, tk, tx, ss] => do
+    let de ← parseTok rows base mros id .evaluate te
+    let dv ← parseTok rows base mros id .validate tv
+    let dk ← parseTok rows base mros id .keys tk
+    let dx ← parseTok rows base mros id .explain tx
+    let cs := ss.toList
+    if cs.length != 4 then throw s!"bad slot flags {ss}"
+    let fl : Quad Bool := ⟨cs[0]! == '1', cs[1]! == '1', cs[2]! == '1', cs[3]! == '1'⟩
+    pure { id := id, meth := (Quad.mk de dv dk dx).get, slot := fl.get, root := fun _ => false }
+  | _ => throw s!"bad body {s}"
+
+def parseBase (rows : List Row) (s : String) : Except String (MRO × Bool) :=
+  if s.startsWith "T:" then
+    match (s.drop 2).toString.toNat? with
+    | some i => match findRow rows i with
+      | some r => .ok (r.mro, true)
+      | none => .error s!"no table class {i}"
+    | none => .error s!"bad base {s}"
+  else if s.startsWith "M:" then
+    let ids := ((s.drop 2).toString.splitOn ",").map String.toNat?
+    ids.foldr (fun i acc => match i, acc with
+      | some i, .ok (w, _) => match findRow rows i with
+        | some r => if r.anc.isEmpty then .ok (r.mro ++ w, false) else .error s!"{i} is not a pure root"
+        | none => .error s!"no table class {i}"
+      | none, _ => .error s!"bad base {s}"
+      | _, .error e => .error e) (.ok ([], false))
+  else .error s!"bad base {s}"
+
+def chainLine (rows : List Row) (line : String) : String :=
+  match line.splitOn "|" with
+  | [] => "ERR empty"
+  | bs :: bodies =>
+    match parseBase rows bs with
+    | .error e => s!"ERR {e}"
+    | .ok (w0, single) =>
+      let baseOpt := if single then some w0 else none
+      let rec go (i : Nat) (w : MRO) (mros : Array MRO) (done : List Body) (todo : List String)
+          (acc : List String) : String :=
+        match todo with
+        | [] => String.intercalate "|" acc.reverse
+        | t :: ts =>
+          match parseBody rows baseOpt mros (1000 + i) t with
+          | .error e => s!"ERR {e}"
+          | .ok b =>
+            let w' := extend w b
+            let bodiesSoFar := done ++ [b]
+            let cols := methOrder.map fun m =>
+              let r0 := resolved m w0
+              let okS :=
+                if hooked w0 m then
+                  b01 (decide (Inv m w0 r0) && decide (ChainOK m (wrappedAt m w0) r0 bodiesSoFar))
+                else "n"
+              s!"{ml m}:{obsM w w' m},{okS},{fnS (intended m r0 bodiesSoFar)}"
+            go (i + 1) w' (mros.push w') bodiesSoFar ts (String.intercalate ";" cols :: acc)
+      go 0 w0 #[] [] bodies []
+
+def main (args : List String) : IO Unit := do
+  match evalTable classTable [] with
+  | none =>
+    IO.println "ERR the class table has a shape the model does not cover"
+  | some rows =>
+    if args == ["table"] then
+      for r in rows do
+        IO.println (tableLine classTable r)
+    else
+      let stdin ← IO.getStdin
+      let stdout ← IO.getStdout
+      let rec loop : Nat → IO Unit
+        | 0 => pure ()
+        | n + 1 => do
+          let line ← stdin.getLine
+          if line.isEmpty then pure ()
+          else
+            let l := line.trimAscii.toString
+            if l.isEmpty then stdout.putStrLn "" else stdout.putStrLn (chainLine rows l)
+            loop n
+      loop 100000000
+      stdout.flush
